@@ -117,6 +117,9 @@ class ChainNode(Entity):
         self._pending_writes: dict[int, SimFuture] = {}
         self._next_seq: int = 0
 
+        # Highest propagated sequence number received so far, per key
+        self._key_seq: dict[str, int] = {}
+
         self._writes_received = 0
         self._propagations_sent = 0
         self._propagations_received = 0
@@ -254,8 +257,15 @@ class ChainNode(Entity):
 
         self._propagations_received += 1
 
-        # Apply locally
-        yield from self._store.put(key, value)
+        if seq < self._key_seq.get(key, 0):
+            # Stale: a newer write to this key overtook this one in flight.
+            # Keep the newer value (still forward/ack below); wait out the
+            # store latency so the newer write is in place first.
+            yield self._store.write_latency
+        else:
+            self._key_seq[key] = seq
+            # Apply locally
+            yield from self._store.put(key, value)
 
         if self._craq_enabled:
             self._dirty_keys.add(key)
